@@ -311,3 +311,8 @@ def run(facts, res):
         res.instance("G5", "Melda::has_staging = any(tree.has_staging()) over the whole document map: %s" % ok, hs.loc())
         if not ok:
             res.violation("G5", "has_staging|not-any-fold", "Melda::has_staging is not an any-fold of RevisionTree::has_staging over all trees", hs.loc())
+
+
+def thorough(res):
+    from .. import engine
+    engine.sensitivity("C15", res)
